@@ -174,16 +174,26 @@ def run_case(case, ctx, res):
             return np.full(nn, float(rng.choice([0.0, 3.5, -2.0])))
         return rng.uniform(-30, 30, nn)
     x, y = draw(n), draw(n)
+    dt_hint = str(rng.choice(["float64", "float64", "float32", "int64"]))
     if logx:
         x = np.abs(x) + (0.0 if rng.random() < 0.3 else 1e-3)     # may contain zeros -> log10 = -inf
     if logy:
         y = np.abs(y) + 1e-3
+    if n > 6 and rng.random() < 0.4:
+        # finite values (very) far outside any sensible range: "any value distribution"
+        for k in range(int(rng.integers(1, 5))):
+            far = float(rng.choice([2.0 ** 24, 2.0 ** 31, 2.0 ** 32, 2.0 ** 33, 2.0 ** 40, 2.0 ** 63, 2.0 ** 64, 1e10, 1e300]))
+            if dt_hint == "int64":
+                far = min(far, 2.0 ** 40)      # integer data: stay far inside int64 (overflow is numpy's, not judged)
+            far = far * float(rng.choice([-1.0, 1.0])) + float(rng.uniform(0, 1))
+            (x if rng.random() < 0.5 else y)[int(rng.integers(0, n))] = far
+        res.tag("far-outliers")
     if n > 3 and rng.random() < 0.3:
         x[int(rng.integers(0, n))] = np.nan
         y[int(rng.integers(0, n))] = np.inf
         x[int(rng.integers(0, n))] = -np.inf
         res.tag("nan-inf-points")
-    dt = str(rng.choice(["float64", "float64", "float32", "int64"]))
+    dt = dt_hint
     if dt == "int64":
         x = np.where(np.isfinite(x), np.round(x), 0).astype("int64")
         if logx:
